@@ -303,6 +303,7 @@ func streamEdsReconcile(r *rand.Rand, i int, tier string) *Case {
 		deco = 0
 	}
 	metaDiff := r.Intn(2) == 0
+	metaMore := r.Intn(6) == 0
 	tplCase := func(id int) corev1.PodTemplateSpec {
 		t := tplOf(id)
 		if metaDiff {
@@ -310,6 +311,14 @@ func streamEdsReconcile(r *rand.Rand, i int, tier string) *Case {
 			t.Annotations = map[string]string{"checksum/config": fmt.Sprintf("cfg-%d", id)}
 			if id == 2 {
 				t.Labels["tier"] = "new"
+			}
+		}
+		if metaMore {
+			// template metadata beyond labels and annotations (all of ObjectMeta is in the CRD schema): the replica
+			// set is created from the WHOLE template, and its recorded hash is the hash of what it stores
+			t.Finalizers = []string{"example.com/hold"}
+			if id == 2 {
+				t.OwnerReferences = []metav1.OwnerReference{{APIVersion: "v1", Kind: "ConfigMap", Name: "cfg", UID: "u1"}}
 			}
 		}
 		switch deco {
